@@ -97,3 +97,41 @@ Proof.
   - intros [c [b [Hin [Hv [Hd Hr]]]]]; subst. left. exists (cid, c); split; [exact Hin|].
     apply in_dropped; eauto.
 Qed.
+
+(* ---------------------------------------------------------------- the interval task itself *)
+(* do_circuits first tries to satisfy the node's own demand for circuits; whatever create_circuit answers
+   (any number of rounds, any outcomes) the call of do_remove that follows is reached: the sweep cannot be
+   starved by a demand that cannot be met. *)
+Ltac split_matches :=
+  repeat match goal with
+         | |- context [match ?x with _ => _ end] => let E := fresh "E" in destruct x eqn:E
+         end.
+
+Lemma dc_inner_body_no_return ok : dc_inner_body ok <> SReturn.
+Proof. unfold dc_inner_body. destruct ok; simpl; discriminate. Qed.
+
+Lemma dc_inner_no_return rs : dc_inner rs <> SReturn.
+Proof.
+  induction rs as [|ok tl IH]; simpl; [discriminate|].
+  destruct (dc_inner_body ok) eqn:E; try discriminate; try exact IH.
+  exfalso. exact (dc_inner_body_no_return ok E).
+Qed.
+
+Lemma dc_outer_body_no_return nb rs : dc_outer_body nb rs <> SReturn.
+Proof.
+  unfold dc_outer_body. pose proof (dc_inner_no_return rs) as H.
+  destruct nb; simpl; destruct (dc_inner rs); try discriminate; try contradiction.
+Qed.
+
+Lemma dc_outer_no_return ds : dc_outer ds <> SReturn.
+Proof.
+  induction ds as [|[nb rs] tl IH]; simpl; [discriminate|].
+  destruct (dc_outer_body nb rs) eqn:E; try discriminate; try exact IH.
+  exfalso. exact (dc_outer_body_no_return nb rs E).
+Qed.
+
+Lemma do_circuits_sweeps_l ds : do_circuits_sweeps ds = true.
+Proof.
+  unfold do_circuits_sweeps. pose proof (dc_outer_no_return ds) as H.
+  destruct (dc_outer ds); try reflexivity. contradiction.
+Qed.
